@@ -115,7 +115,86 @@ def histories(ctx):
     return hs
 
 
+def rich_cascades(ctx):
+    """T-ref on whole specifications with real architectures (DRAM/cache/buffets, compute units, intersectors of each type,
+    sequencers, mergers; 1-3 configurations; tools/specgen_time.py): the metrics["blocks"] literal of the emitted dump and
+    Fusion.get_blocks() are decided by legal_blocks_b against features recomputed from the specification alone.  A fraction
+    of the cascades is made to re-bind a functional component of the previous Einsum (the situation the third clause of
+    the property is about)."""
+    import specgen_time as st
+    from props import c14
+    rng = ctx.rng
+    n = 120 if ctx.quick() else 1200
+    rows, stats = [], {"generated": n, "compiled": 0, "rejected": {}, "shared_functional": 0, "kinds": {}}
+    for _ in range(n):
+        S = st.gen(rng, special_names=False)
+        es = S["einsums"]
+        if len(es) >= 2 and rng.random() < 0.5:
+            # continue the previous Einsum's configuration, loop order and space, and re-bind one of its functional components
+            i = rng.randrange(1, len(es))
+            a, b = es[i - 1], es[i]
+            if sorted(a["loop"]) == sorted(b["loop"]):
+                b["config"], b["loop"], b["space"] = a["config"], list(a["loop"]), list(a["space"])
+                arch = dict(S["arch"])[a["config"]]
+                cls = {c["name"]: c["class"].lower() for c, _ in st.config_components(arch)}
+                fus = [(nm, bs) for nm, bs in a["bindings"] if bs and cls.get(nm) in st.FUNCTIONAL]
+                b["bindings"] = [(nm, bs) for nm, bs in b["bindings"] if cls.get(nm) is not None]
+                if fus and rng.random() < 0.7:
+                    nm, bs = rng.choice(fus)
+                    b["bindings"] = [(x, y) for x, y in b["bindings"] if x != nm] + [(nm, [dict(z) for z in bs])]
+        feats = st.features(S)
+        y = st.to_yaml(S)
+        try:
+            text, blocks, reg = c14.compile_yaml(y)
+        except Exception as e:
+            k = type(e).__name__ + ": " + str(e)[:50]
+            stats["rejected"][k] = stats["rejected"].get(k, 0) + 1
+            continue
+        stats["compiled"] += 1
+        dump = "missing"
+        for node in ast.parse(text).body:
+            if isinstance(node, ast.Assign) and ast.unparse(node.targets[0]) == "metrics['blocks']":
+                dump = ast.literal_eval(node.value)
+        arch_cls = {}
+        for cfg, tree in S["arch"]:
+            for c, _ in st.config_components(tree):
+                arch_cls[c["name"]] = c["class"].lower()
+        for f in feats:
+            for c in f["fcomps"]:
+                stats["kinds"][arch_cls.get(c, "?")] = stats["kinds"].get(arch_cls.get(c, "?"), 0) + 1
+        for f1, f2 in zip(feats, feats[1:]):
+            if set(f1["fcomps"]) & set(f2["fcomps"]) and f1["config"] == f2["config"]:
+                stats["shared_functional"] += 1
+        rows.append((feats, blocks, dump, y))
+    exprs = []
+    for feats, blocks, dump, y in rows:
+        h = clist("(mkE %s %s (temporal_prefix %s %s) %s)" % (cstr(f["name"]), cstr(f["config"]), clist(map(cstr, f["loop"])),
+                                                              clist(map(cstr, f["space"])), clist(map(cstr, f["fcomps"]))) for f in feats)
+        exprs.append("(let h := %s in show_bool (legal_blocks_b h %s) ++ \"#\" ++ show_bool (legal_blocks_b h %s) ++ \"#\" ++ show_blocks (get_blocks (frun h)))"
+                     % (h, coq_blocks(blocks), coq_blocks(dump if isinstance(dump, list) else blocks)))
+    res = vlib.coq_eval_lines("c13r", ["TV.Model.Fusion", "TV.Model.Show"], "", exprs)
+    for (feats, blocks, dump, y), r in zip(rows, res):
+        ok_code, ok_dump, model = r.split("#")
+        hist = [{k: f[k] for k in ("name", "config", "loop", "space", "fcomps")} for f in feats]
+        if dump == "missing":
+            ctx.violation({"kind": "dump-blocks-missing"}, "the emitted dump has no metrics[\"blocks\"] assignment (features %s)" % hist,
+                          {"yaml": y, "features": hist, "code_blocks": blocks, "rich": True})
+        elif ok_code != "T" or ok_dump != "T":
+            ctx.violation({"kind": "illegal-blocks"}, "blocks %s (dump %s) are not a legal partition for the Einsums %s" % (blocks, dump, hist),
+                          {"yaml": y, "features": hist, "code_blocks": blocks, "dump_blocks": dump, "model_blocks": model, "rich": True})
+        elif dump != blocks:
+            ctx.violation({"kind": "dump-blocks-differ"}, "metrics[\"blocks\"] %s differs from Fusion.get_blocks() %s" % (dump, blocks),
+                          {"yaml": y, "features": hist, "rich": True}, no_input=True)
+        elif model != show_blocks(blocks):
+            ctx.violation({"kind": "model-correspondence"},
+                          "Fusion.add_einsum and Model/Fusion.v disagree on a whole specification (model %s, code %s); the code's blocks are legal"
+                          % (model, show_blocks(blocks)), {"yaml": y, "features": hist, "code_blocks": blocks, "model_blocks": model, "rich": True}, no_input=True)
+    return stats, len(rows)
+
+
 def run(ctx):
+    rich_stats, rich_n = rich_cascades(ctx)
+    ctx.coverage["rich_cascades"] = rich_stats
     hs = histories(ctx)
     rows = []
     for h in hs:
@@ -162,7 +241,7 @@ def run(ctx):
         if len(samples) < 3 and len(h) >= 3 and len(b) < len(h):
             samples.append({"history": h, "code_blocks": b, "model_blocks": model})
     ctx.coverage.update({
-        "programs": len(rows),
+        "programs": len(rows) + rich_n,
         "disagreements_checked": n_dis,
         "evaluations": len(rows),
         "distinct_nontrivial": len([s for s in seen]) if multi else 0,
@@ -180,6 +259,25 @@ def run(ctx):
 
 
 def replay(ctx, rep):
+    if rep["replay"].get("rich"):
+        from props import c14
+        r = rep["replay"]
+        text, blocks, reg = c14.compile_yaml(r["yaml"])
+        names = [f["name"] for f in r["features"]]
+        info = {f["name"]: {"config": f["config"], "loop": f["loop"], "space": f["space"], "comps": f["fcomps"]} for f in r["features"]}
+        hist = [info[n] for n in names]
+        dump = "missing"
+        for node in ast.parse(text).body:
+            if isinstance(node, ast.Assign) and ast.unparse(node.targets[0]) == "metrics['blocks']":
+                dump = ast.literal_eval(node.value)
+        # py_legal works on the generic names T,U,...: rename
+        ren = dict(zip(names, sg.NAMES))
+        ok = dump == blocks and py_legal(hist, [[ren[x] for x in b] for b in blocks])
+        print("blocks:", blocks, "dump:", dump, "legal:", ok)
+        if not ok:
+            print("VIOLATION property=C13 replay=<given file>")
+            return 1
+        return 0
     h = rep["replay"]["history"]
     b, d = code_blocks(h)
     ok = py_legal(h, b) and (d is None or d == b)   # d == "missing" fails here too
